@@ -201,7 +201,7 @@ Inductive event :=
 | ENextCall (i : Z) | ENextRet (i : Z)
 | EAbort (i : Z)
 | EUnwind (i : Z)                         (* a panic left handler i *)
-| ERecovered (i : Z) (written_before : bool) (status_before : N)
+| ERecovered (i : Z) (sent_before : bool) (code_before : N)
 | EObs (i : Z) (status : N) (written : bool) (size : N) (aborted : bool).
 
 Record core := mkC { c_w : wstate; c_path : list N; c_tr : list event }.
@@ -286,7 +286,7 @@ Definition run_handler (call_next : mstate -> outcome mstate) (n i : Z) (h : han
   | Done s' => Done (mlog (EExit i) s')
   | Panicked s' =>
     if recovers h then
-      let s1 := mlog (ERecovered i (g_written (c_w (m_core s'))) (g_status (c_w (m_core s')))) s' in
+      let s1 := mlog (ERecovered i (r_wrote (rc (c_w (m_core s')))) (r_code (rc (c_w (m_core s'))))) s' in
       let (c', p) := http_error 500 msg500 (m_core s1) in
       if p then Panicked (mlog (EUnwind i) (mkM (m_idx s1) c'))
       else Done (mlog (EExit i) (mlog (EAbort i) (mkM n c')))
@@ -365,7 +365,7 @@ Definition ref_handler (k : core -> outcome core) (i : Z) (h : handler) (c : cor
   | Done (l, c') => Done (l, logc (EExit i) c')
   | Panicked (l, c') =>
     if recovers h then
-      let c1 := logc (ERecovered i (g_written (c_w c')) (g_status (c_w c'))) c' in
+      let c1 := logc (ERecovered i (r_wrote (rc (c_w c'))) (r_code (rc (c_w c')))) c' in
       let (c2, p) := http_error 500 msg500 c1 in
       if p then Panicked (l, logc (EUnwind i) c2)
       else Done (false, logc (EExit i) (logc (EAbort i) c2))
